@@ -412,4 +412,30 @@ theorem number_value (t : NumText) (rest : Bytes) (hwf : t.wf = true) (hs : Stop
           rw [hval]
           exact ⟨_, hparse, sameValue_of t Mo k (digitsVal G) c _ hspec.mant hspec.exp hout⟩
 
+/-! ## the errors -/
+
+theorem expNumber_error (inp : Bytes) (e : Nat) (y : NumErr) (h : expNumber inp e = .error y) :
+    y = .tooLong ∨ y = .expRange ∨ y = .maxLen := by
+  unfold expNumber at h
+  by_cases h1 : e > 65535
+  · simp only [h1, if_true] at h; injection h with h; subst h; simp
+  · by_cases h2 : digitsVal (expDigits inp e) > 65535
+    · simp only [h1, h2, if_true, if_false] at h; injection h with h; subst h; simp
+    · simp only [h1, h2, if_false] at h
+      split at h
+      · injection h with h; subst h; simp
+      · cases h
+
+/-- a number text is never refused as malformed: the only errors are the limits -/
+theorem number_error_kind (t : NumText) (rest : Bytes) (hwf : t.wf = true) (hs : Stops rest = true) (x : NumErr)
+    (hx : number (t.render ++ rest) = .error x) : x = .tooLong ∨ x = .expRange ∨ x = .maxLen := by
+  unfold number at hx
+  rw [scan_render t rest hwf hs] at hx
+  simp only [] at hx
+  repeat' split at hx
+  all_goals first
+    | (cases hx; done)
+    | (injection hx with hx; subst hx; simp; done)
+    | (rename_i y hy; injection hx with hx; subst hx; exact expNumber_error _ _ _ hy)
+
 end LyModel.JsonNum
